@@ -248,6 +248,7 @@ func drawC03(rt *rapid.T) C03Scenario {
 		origin[p] = p
 	}
 	mainAhead := false
+	merged := false // a merge of the base branch happened: no rebase afterwards
 	sharedTouched := false // the base branch edited a file the feature branch also has: no rebase afterwards
 	ncommits := 1 + g.pick("ncommits", detsim.Scale(6, 10))
 	// motifs: multi-commit situations that uniform choice of operations almost never lines up
@@ -330,6 +331,20 @@ func drawC03(rt *rapid.T) C03Scenario {
 			sc.Commits = append(sc.Commits, cm)
 			mainAhead = true
 			continue
+		case roll == 2 && mainAhead && (sharedTouched || merged || g.pick("mergeinstead", 2) == 0):
+			// "Update branch": the base branch is merged into the branch under review. Files both sides edited
+			// are merged by git (a conflict ends the history); from here on the trees the oracle compares are
+			// read back from the repository, the generator's own copies of shared files are stale.
+			sc.Commits = append(sc.Commits, Commit{Actor: "merge", Msg: fmt.Sprintf("merge main %d", c)})
+			for _, bp := range basePaths {
+				if f, ok := mainT[bp]; ok {
+					fork[bp] = f.clone()
+					head[bp] = f.clone()
+					origin[bp] = bp
+				}
+			}
+			mainAhead = false
+			merged = true
 		case roll == 2 && mainAhead && !sharedTouched:
 			// the feature author rebases onto the advanced base branch (base-only files, so no conflicts)
 			sc.Commits = append(sc.Commits, Commit{Actor: "rebase", Msg: "rebase"})
@@ -661,10 +676,14 @@ func runC03(t *testing.T, sc C03Scenario, record bool) *detsim.Outcome {
 	must(repo.WriteTree(sc.Init))
 	must(repo.CommitAll("initial"))
 	repo.Branch = sc.Branch
+	_, _ = repo.Git("tag", "fork0")
 	_, err = repo.Git("checkout", "-q", "-b", repo.branch())
 	must(err)
 
 	digest := fnv.New64a()
+	mergedAt := -1
+	tainted := map[string]bool{}
+	const mergedMark = " [file changed on both branches and merged]"
 	evalAt := map[int]*Evaluation{}
 	for i := range sc.Evaluations {
 		evalAt[sc.Evaluations[i].AfterCommit] = &sc.Evaluations[i]
@@ -681,8 +700,52 @@ func runC03(t *testing.T, sc C03Scenario, record bool) *detsim.Outcome {
 			out.Probes["commit_with_rename"]++
 		}
 		ev := evalAt[ci]
+		if c.Actor == "merge" {
+			mergedAt = ci
+		}
 		if ev == nil {
 			continue
+		}
+		if mergedAt >= 0 {
+			// what the branch is compared with is the merge base, and what git made of files both sides
+			// edited is whatever is in the repository: read both back instead of trusting the generator
+			mb, err := repo.Git("merge-base", "main", "HEAD")
+			if err != nil {
+				t.Fatalf("simulated repository: %v", err)
+			}
+			ft, ok1 := repo.ReadTree(strings.TrimSpace(mb))
+			ht, ok2 := repo.ReadTree("HEAD")
+			if !ok1 || !ok2 {
+				out.Probes["merge_result_not_in_model_shape"]++
+				return out
+			}
+			evCopy := *ev
+			evCopy.Fork, evCopy.Head = ft, ht
+			o := map[string]string{}
+			for hp := range ht {
+				if op, ok := ev.Origin[hp]; ok {
+					o[hp] = op
+				} else if _, inBase := ft[hp]; inBase {
+					o[hp] = hp
+				} else {
+					o[hp] = ""
+				}
+			}
+			evCopy.Origin = o
+			ev = &evCopy
+			out.Probes["evaluation_after_merge"]++
+			// files that the base branch changed too and that came together in the merge
+			tainted = map[string]bool{}
+			for hp, op := range o {
+				for _, q := range []string{hp, op} {
+					if q == "" {
+						continue
+					}
+					if l, err := repo.Git("log", "--format=%H", "fork0.."+strings.TrimSpace(mb), "--", q); err == nil && strings.TrimSpace(l) != "" {
+						tainted[hp] = true
+					}
+				}
+			}
 		}
 		reps, stderr, err := repo.RunPintCI(pint, cfg)
 		out.Sched.Decisions++
@@ -736,6 +799,10 @@ func runC03(t *testing.T, sc C03Scenario, record bool) *detsim.Outcome {
 				got := states[k]
 				fmt.Fprintf(digest, "%d|%s|%d|%v;", ci, p, i, got)
 				who := fmt.Sprintf("after commit %d (%s): rule `%s` at %s:%d", ci, c.Msg, r.Name, p, spans[i].First)
+				if tainted[p] {
+					who += mergedMark
+					out.Probes["rule_in_file_merged_from_both_branches"]++
+				}
 				if len(got) != 1 {
 					out.AddViolation("state-marker-count", fmt.Sprintf("%s: expected exactly one state, pint assigned %v (reference: %v)", who, got, want))
 					continue
@@ -772,7 +839,11 @@ func runC03(t *testing.T, sc C03Scenario, record bool) *detsim.Outcome {
 			}
 		}
 		for k, v := range states {
-			out.AddViolation("marker-on-unknown-rule", fmt.Sprintf("after commit %d: state %v reported at %s:%d where the model has no rule", ci, v, k.path, k.line))
+			mark := ""
+			if tainted[k.path] {
+				mark = mergedMark
+			}
+			out.AddViolation("marker-on-unknown-rule", fmt.Sprintf("after commit %d: state %v reported at %s:%d where the model has no rule%s", ci, v, k.path, k.line, mark))
 		}
 		out.Probes["evaluations"]++
 	}
